@@ -2885,7 +2885,13 @@ def groupby_reduce(
         partial_agg = partial(dask_groupby_agg, **kwargs)
 
         # if preferred method is already blockwise, no need to rechunk
-        if preferred_method != "blockwise" and method == "blockwise" and by_.ndim == 1:
+        # (labels held in a dask array cannot be inspected: the chunking is then the caller's business)
+        if (
+            preferred_method != "blockwise"
+            and method == "blockwise"
+            and by_.ndim == 1
+            and not is_duck_dask_array(by_)
+        ):
             array = rechunk_for_blockwise(array, axis=-1, labels=by_)
 
         result, groups = partial_agg(
